@@ -327,7 +327,7 @@ fn matches(f: &Failure, prop: &str) -> bool {
     prop == "any" || f.clause.starts_with(prop) || f.clause == "panic" || (prop == "C14" && f.clause.starts_with("C08")) || (prop == "C08" && f.clause.starts_with("C14"))
 }
 
-pub fn search_env(prop: &str, seed: u64, nrandom: usize, budget_s: u64) -> Option<(EnvHistory, Vec<Failure>)> {
+pub fn search_env(prop: &str, seed: u64, nrandom: usize, budget_s: u64, allow_overrun: bool) -> Option<(EnvHistory, Vec<Failure>)> {
     let t0 = std::time::Instant::now();
     let mut rng = Xoroshiro128StarStar::seed_from_u64(seed ^ 0xe57);
     for k in 0..nrandom {
@@ -335,7 +335,7 @@ pub fn search_env(prop: &str, seed: u64, nrandom: usize, budget_s: u64) -> Optio
             break;
         }
         let market = if prop == "C14" { true } else { k % 2 == 1 };
-        let overrun = prop == "C05";
+        let overrun = allow_overrun && prop == "C05";
         let mut h = random_env_history(&mut rng, market, overrun, 10 + (k % 5) * 10);
         let fails = run_env_history(&h);
         if fails.iter().any(|f| matches(f, prop)) {
